@@ -292,6 +292,32 @@ def nest(out_path, seed, n, hl_k=2):
         v = rnd.choice([v for v in t.get_vars() if v.T == T])
         t3 = Abs("z", T, t.abstract_over(v)).subst_bound(a)
         roundtrip_term(out, t3, "nest3:%s/%s/%s" % l, configs=CONFIGS[:2] + hl_pick(i, 1))
+    # depth 3, systematic: a construct that is OPEN TO THE RIGHT (if, binders, lambda: its last part extends as far as the text
+    # goes) as the LAST operand of an operator application that is itself the FIRST operand of every operator (and the function /
+    # a non-final argument of an application) of fitting type -- the text after it must not be swallowed by the open construct
+    open_r = {"if", "all", "exists", "lambda"}
+    mids = [(l, t) for l, t in univ if l[2] in open_r and l[1] in ("R", "U")]
+    outers = {}
+    for l, t in univ:
+        if l[1] == "L" and t.is_comb() and t.fun.is_comb():
+            outers.setdefault((l[0], str(t.fun.arg.checked_get_type())), t)
+    trip = []
+    for l, m in mids:
+        try:
+            T = m.checked_get_type()
+        except Exception:
+            continue
+        for (ok, Ts), o in sorted(outers.items(), key=lambda kv: kv[0]):
+            if Ts == str(T):
+                trip.append((l + (ok,), o.head(m, o.arg)))
+        g2 = Var("h_%s" % tname(T), TFun(T, NatType, NatType))
+        trip.append((l + ("app",), g2(m, leaf(NatType, 4))))
+    rnd.shuffle(trip)
+    seen3 = set()
+    ordered = [x for x in trip if (x[0][2], x[0][3]) not in seen3 and not seen3.add((x[0][2], x[0][3]))]
+    ordered += [x for x in trip if x not in ordered][:max(0, n // 2)]
+    for i, (l, t3) in enumerate(ordered):
+        roundtrip_term(out, t3, "open3:%s/%s/%s/%s" % l, configs=CONFIGS[:2] + hl_pick(i, 1))
     for i, (lbl, t) in enumerate(extras()):
         roundtrip_term(out, t, "extra:" + lbl, configs=ALL_CONFIGS if hl_k >= 6 else CONFIGS + hl_pick(i, 3))
     history(out, pool, rnd)
